@@ -214,10 +214,45 @@ def gen_cases(rng, tier):
             cases.append({**base, "mode": "jit", "items": ch})
         eager = rng.sample(items, min(neager, len(items)))
         cases.append({**base, "mode": "eager", "items": eager})
+    cases += _spinn_cases(rng, tier)
     return cases
 
 
+def _spinn_cases(rng, tier):
+    """the forward-mode versions of the same operators (`_laplacian_fwd`, `_div_fwd`, `_vectorial_laplacian`,
+    `_u_dot_nabla_times_u_fwd`) on real separable networks (`SPINN`) with integer-polynomial sub-networks: every
+    entry of the returned grid is the operator's value at its grid point, for the pointwise twin polynomial
+    sum_r prod_k f_{k,r}(z_k).  Batches smaller than, equal to and larger than the dimension."""
+    import itertools
+    from harness import c11
+
+    out = []
+    cfgs = []
+    for d in (1, 2, 3):
+        for time in (False, True):
+            cfgs += [("lap", d, time, 1), ("div", d, time, d), ("veclap", d, time, d), ("veclap", d, time, (d % 3) + 1)]
+    cfgs += [("adv", 2, False, 2), ("adv", 2, True, 2)]
+    for which, d, time, m in cfgs:
+        D = d + (1 if time else 0)
+        Bs = [1, 2] if tier == "quick" else [1, 2, 3]
+        if D >= 4:
+            Bs = [1, 2]
+        for B in Bs:
+            R, deg = rng.choice([1, 2]), (2 if D <= 3 else rng.choice([1, 2]))
+            coef = c11._coef(rng, D, R * m, deg)
+            X = c11._batch(rng, B, D)
+            exps = list(itertools.product(range(deg + 1), repeat=D))
+            tw = c11._twin_coef(coef, R, m, exps)
+            polys = [[[_q(Fraction(v)), list(e)] for v, e in zip(row, exps) if v != 0] for row in tw]
+            items = [{"polys": polys, "pt": [_q(v) for v in pt], "nu": "0", "rho": "1"} for pt in c11._grid_points(X)]
+            out.append({"which": which, "d": d, "time": time, "m": m, "extra": [], "mode": "spinn", "items": items,
+                        "spinn": {"R": R, "deg": deg, "coef": coef, "X": X}})
+    return out
+
+
 def shrink_candidates(case):
+    if case["mode"] == "spinn":  # the items are the grid of one batch: not independent
+        return
     its = case["items"]
     if len(its) > 1:
         for it in its:
@@ -235,6 +270,9 @@ def shrink_candidates(case):
 def widen(rng, bad_cases):
     out = []
     for c in bad_cases:
+        if c["mode"] == "spinn":
+            out += [x for x in _spinn_cases(rng, "thorough") if x["which"] == c["which"]]
+            continue
         for _ in range(3):
             out.append({**c, "items": _items_random(rng, c["which"], c["d"], c["time"], c["m"], 30, c["extra"])})
     return out
@@ -343,6 +381,8 @@ def run_impl(case):
     from harness import core
 
     which, d, time, m = case["which"], case["d"], case["time"], case["m"]
+    if case["mode"] == "spinn":
+        return _run_spinn(case)
     nv = d + (1 if time else 0)
     jit = case["mode"] == "jit"
     do_frozen = time and which != "ns"
@@ -389,6 +429,46 @@ def run_impl(case):
             rec = {"error": core.err_kind(e)}
         out.append(rec)
     return {"items": out}
+
+
+def _run_spinn(case):
+    import jax.numpy as jnp
+    import numpy as np
+    from harness import core, c11
+    from jinns.loss import _div_fwd, _laplacian_fwd, _vectorial_laplacian
+    from jinns.loss._operators import _u_dot_nabla_times_u_fwd
+    from jinns.parameters._params import Params
+
+    which, d, time, m, sp = case["which"], case["d"], case["time"], case["m"], case["spinn"]
+    D = d + (1 if time else 0)
+    net, tmpl, _, _ = c11._nets(time, D, sp["R"], m, sp["deg"])
+    nn = c11._set(tmpl, jnp.asarray(sp["coef"], dtype=jnp.float64))
+    X = jnp.asarray([[float(Fraction(v)) for v in row] for row in sp["X"]], dtype=jnp.float64)
+    t, x = (X[:, 0:1], X[:, 1:]) if time else (None, X)
+    B = X.shape[0]
+
+    def f(eqp):
+        params = Params(nn_params=nn, eq_params=eqp)
+        if which == "lap":
+            return _laplacian_fwd(t, x, net, params)[..., None]
+        if which == "div":
+            return _div_fwd(t, x, net, params)[..., None]
+        if which == "veclap":
+            return jnp.moveaxis(_vectorial_laplacian(t, x, net, params, u_vec_ndim=m), 0, -1)
+        if which == "adv":
+            return _u_dot_nabla_times_u_fwd(t, x, net, params)
+        raise ValueError(which)
+
+    try:
+        v = np.asarray(f({"nu": jnp.asarray(1.0), "unrelated": jnp.asarray(0.5)}))
+        v2 = np.asarray(f({"nu": jnp.asarray(-3.0), "unrelated": jnp.asarray(7.0)}))
+    except (NotImplementedError, ValueError, TypeError, AssertionError, IndexError) as e:
+        return {"items": [{"error": core.err_kind(e)} for _ in case["items"]]}
+    if v.shape[:D] != (B,) * D:
+        return {"items": [{"error": "grid_shape"} for _ in case["items"]]}
+    v, v2 = v.reshape(B ** D, -1), v2.reshape(B ** D, -1)
+    return {"items": [{"value": core.qlist(a), "finite": core.is_finite_tree(a), "perturbed": [core.qlist(b)]}
+                      for a, b in zip(v, v2)]}
 
 
 # ------------------------------------------------------------------------------------------
